@@ -108,6 +108,7 @@ func stdPairs(w *sim.World) []*ibtpPair {
 	return []*ibtpPair{
 		mk("chainA", "s1", "chainB", "s1", true),
 		mk("chainB", "s1", "chainA", "s1", true),
+		mk("chainC", "s1", "chainC", "s1", true), // a service calling itself: source and destination record are one
 		mk("chainA", "s1", "chainC", "s1", true),
 		mk("chainA", "s2", "chainB", "s2", false),   // blacklisted by the destination
 		mk("chainC", "s1", "chainB", "nosvc", false), // destination service does not exist
